@@ -1261,14 +1261,8 @@ impl Engine {
         Ok(())
     }
 
-    fn post_step(&mut self, op: &Op, version_changed: bool, maintenance_t: Option<u64>) -> R<()> {
-        if !self.opts.full_checks {
-            return Ok(());
-        }
-        let is_read_only = matches!(op, Op::Scan { .. } | Op::Prefix { .. } | Op::Clock { .. });
-        if is_read_only {
-            return Ok(());
-        }
+    /// Point reads and full scans at the newest snapshot and at every live snapshot.
+    pub fn check_reads(&mut self) -> R<()> {
         // 1. point reads at the newest snapshot (both spellings of "newest")
         let s = self.visible.get();
         let at = self.model.ev;
@@ -1290,6 +1284,18 @@ impl Engine {
                 self.stats.inc("probe_snapshot_on_older_version");
             }
         }
+        Ok(())
+    }
+
+    fn post_step(&mut self, op: &Op, version_changed: bool, maintenance_t: Option<u64>) -> R<()> {
+        if !self.opts.full_checks {
+            return Ok(());
+        }
+        let is_read_only = matches!(op, Op::Scan { .. } | Op::Prefix { .. } | Op::Clock { .. });
+        if is_read_only {
+            return Ok(());
+        }
+        self.check_reads()?;
         // 4. structural audits after version changes
         if version_changed {
             self.audit_step(maintenance_t)?;
